@@ -12,6 +12,17 @@ Property theorems only.  Part A: the post-conditions of `links_from_html`
 parameter functions `E : Env` (`urljoin`, `is_url`, `canonicalize_url`, the two regex tests).
 `(links E cfg base hrefs).1` is the list of links the generator yields (up to the exception
 that ends it, if `urljoin` / `canonicalize_url` raise), `.2` that exception.
+
+**What Part A certifies.**  Since `E` is abstract, the per-link theorems `links_followable`,
+`links_not_base`, `links_canonical`, `links_plain`, `links_relative_resolved`,
+`links_are_urls` are the filter chain of the model *read back* (one loop iteration unfolded,
+`links_chain`): they hold by construction of `step` and say that a yielded link went through
+every test of the chain, in the order of links_from_html.py:22-55.  Their content for the
+*code* is the model-vs-code correspondence (differential execution on every run, streams
+`links_from_html` / `links_concrete`), not the Lean proof.  The facts that are not a reading
+of one iteration — they need the loop invariant over the whole href list and the
+`already_seen` state — are `links_unique` (no duplicate), `links_order` (sub-sequence image,
+document order) and `links_complete` (nothing else is dropped).
 -/
 namespace Ural.Props.C17
 open Ural.Html Ural.Py
@@ -175,14 +186,12 @@ theorem links_are_urls : FullLinksAreUrls := by
     exact this ▸ h6
   | true => exact hre hc
 
-/-- kept under its old name: the hypothesis is no longer used -/
+/-- the abstract statement "`canonicalize_url` preserves `is_url`" about the parameters; no
+theorem of this file assumes it any more (it was the hypothesis of `links_are_urls_partial`
+before /repo 6e8a1b4); `Props/C17Concrete.lean` proves it for the concrete models on a stated
+class and refutes it outside -/
 def CanonPreservesIsUrl (E : Env) : Prop :=
   ∀ u c, E.isUrl u = true → E.canon u = .ok c → E.isUrl c = true
-
-theorem links_are_urls_partial (_hyp : cfg.canonicalize = false ∨ CanonPreservesIsUrl E)
-    (base : Str) (hrefs : List Str) :
-    ∀ l ∈ (links E cfg base hrefs).1, E.isUrl l = true :=
-  links_are_urls E cfg base hrefs
 
 /-- what ural's `is_url(…, only_http_https=True)` guarantees by its first lines (it strips its
 argument and refuses it unless `HTTP_PROTOCOL_RE` matches): an accepted URL, stripped, is not
@@ -190,18 +199,32 @@ empty and starts with `http://` / `https://` -/
 def IsUrlImpliesHttp (E : Env) : Prop :=
   ∀ u, E.isUrl u = true → strip u ≠ [] ∧ E.httpMatch (strip u) = true
 
-/-- **the yielded link itself is followable** (partial: under the hypotheses that `is_url`
-only accepts `http(s)://…` and that `canonicalize_url` preserves `is_url`, or
-`canonicalize=False`): `should_follow_href(link)` holds, provided a string matched by
-`HTTP_PROTOCOL_RE` does not start with `#`. -/
-theorem links_should_follow_partial (hyp : cfg.canonicalize = false ∨ CanonPreservesIsUrl E)
+/-- **the yielded link itself is followable**: `should_follow_href(link)` holds for every
+yielded link, for all parameter functions such that (1) `is_url` only accepts strings that,
+stripped, are non-empty and matched by `HTTP_PROTOCOL_RE` (`IsUrlImpliesHttp`: what
+`only_http_https=True` gives) and (2) a string matched by `HTTP_PROTOCOL_RE` does not start
+with `#`.  Both hypotheses are about the parameters only, and both are PROVED for the concrete
+models (`isUrlC_implies_http`, `httpMatch_not_hash` in `Props/C17Concrete.lean`, whence the
+hypothesis-free `links_should_follow_concrete`).  No hypothesis on `canonicalize_url`. -/
+theorem links_should_follow
     (hhttp : IsUrlImpliesHttp E) (hhash : ∀ u, E.httpMatch u = true → u.head? ≠ some '#')
     (base : Str) (hrefs : List Str) :
     ∀ l ∈ (links E cfg base hrefs).1, shouldFollowHref E l = true := by
   intro l hl
-  have hu := links_are_urls_partial E cfg hyp base hrefs l hl
+  have hu := links_are_urls E cfg base hrefs l hl
   obtain ⟨h1, h2⟩ := hhttp l hu
   exact (shouldFollowHref_spec E l).mpr ⟨h1, hhash _ h2, fun _ => h2⟩
+
+/-- the first hypothesis of `links_should_follow` is needed: with an `is_url` that accepts
+`mailto:` strings, such a link is yielded and `should_follow_href` refuses it -/
+example :
+    let E : Env := { httpMatch := httpProtocolMatch, protocolMatch := fun _ => true,
+                     urljoin := fun _ u => .ok u, isUrl := fun _ => true, canon := .ok }
+    ¬ IsUrlImpliesHttp E ∧
+      (links E ⟨false, false⟩ "b".toList ["http://a".toList]).1 = ["http://a".toList] := by
+  refine ⟨?_, by decide⟩
+  intro h
+  exact absurd (h "mailto:x".toList rfl).2 (by decide)
 
 /-! ### witnesses and non-vacuity (closed examples, evaluated by the kernel) -/
 
@@ -346,14 +369,21 @@ theorem html_patterns_ascii_determined :
     scriptTag.asciiDetermined reASCII reLOCALE reUNICODE = true ∧
     scriptTagBinary.asciiDetermined reASCII reLOCALE reUNICODE = true := by decide
 
-/-- the same fact, exact: for every leaf of `URL_IN_HTML_RE` the translator of the shared regex
-framework asked the running `re` engine which of the 0x110000 code points it matches (flags
-and case folding included); each answer is a set of ASCII code points or the complement of
-one.  (Vacuous only if the framework cannot translate the pattern at all.) -/
+/-- the same fact, exact: the translator of the shared regex framework DID translate
+`URL_IN_HTML_RE` (`urlInHtmlRe = some r`: the obligation fails, it does not pass silently, when
+a later edit makes the pattern untranslatable), and for every leaf of the term the translator
+asked the running `re` engine which of the 0x110000 code points it matches (flags and case
+folding included); each answer is a set of ASCII code points or the complement of one. -/
 theorem url_in_html_exact_classes_ascii :
-    (Ural.Gen.HtmlRe.urlInHtmlRe.map
-      (Ural.Py.Re.allCls fun C => C.ranges.all fun r => r.1 ≤ r.2 && r.2 < 128)).getD true = true := by
-  decide
+    ∃ r, Ural.Gen.HtmlRe.urlInHtmlRe = some r ∧
+      Ural.Py.Re.allCls (fun C => C.ranges.all fun r => r.1 ≤ r.2 && r.2 < 128) r = true := by
+  have hs : Ural.Gen.HtmlRe.urlInHtmlRe.isSome = true := by decide
+  obtain ⟨r, h⟩ := Option.isSome_iff_exists.mp hs
+  refine ⟨r, h, ?_⟩
+  have : (Ural.Gen.HtmlRe.urlInHtmlRe.map
+    (Ural.Py.Re.allCls fun C => C.ranges.all fun r => r.1 ≤ r.2 && r.2 < 128)).getD false = true := by
+    decide
+  simpa [h] using this
 
 /-- the four regexes are case-insensitive, the `str` ones are `re.I | re.ASCII`, and they are
 the regexes for `str` (resp. `bytes`) documents -/
